@@ -7,6 +7,10 @@ CONSTANTS
   MaxDstFrag = 1
   MaxQ = 0
   Ops = {}
+  EmptyBases = {"slice"}
+  ForeignBytes = {0}
+  ArrKinds = {"roomy"}
+  MaxFail = 0
   Heads = {}
   UOps = {}
 INVARIANTS URefines
